@@ -525,7 +525,7 @@ def kill_orphan_solvers():
         out = subprocess.run(["ps", "-eo", "pid,ppid,cmd"], stdout=subprocess.PIPE, text=True).stdout
         for l in out.splitlines():
             f = l.split(None, 2)
-            if len(f) == 3 and f[1] == "1" and "cvc5 /tmp/smt2_dec_problem" in f[2]:
+            if len(f) == 3 and f[1] == "1" and f[2].startswith("cvc5 ") and "smt2_dec_problem" in f[2]:
                 try:
                     os.kill(int(f[0]), 9)
                 except Exception:
